@@ -110,6 +110,10 @@ func (s *state) check(phase string) (okH, okT, nT int, class, detail string) {
 			fail("GetHeaderByHash", h, fmt.Sprint("err=", err))
 			good = false
 		}
+		if hd, err := ld.GetHeaderByHeight(uint32(h)); err != nil || hd == nil || !bytes.Equal(hd.ToArray(), r.hdrRaw) {
+			fail("GetHeaderByHeight", h, fmt.Sprint("err=", err))
+			good = false
+		}
 		if good {
 			okH++
 		}
@@ -233,7 +237,7 @@ func exec(line string) hx.Result {
 	}
 	res := hx.Result{Kind: "plain"}
 	var outs []string
-	restarts, maxTx, total, syncs := 0, 0, 0, 0
+	restarts, maxTx, total, syncs, forks := 0, 0, 0, 0, 0
 	for _, op := range ops {
 		switch {
 		case op == "r":
@@ -268,6 +272,22 @@ func exec(line string) hx.Result {
 				s.lastTx = txs[n-1]
 			}
 			syncs++
+		case strings.HasPrefix(op, "f"):
+			// a validly signed CANDIDATE header for the next height goes through AddHeader, then a DIFFERENT valid block with the same
+			// parent is committed at that height: the commit must overwrite the height index entry of the candidate
+			n, err := strconv.Atoi(op[1:])
+			if err != nil || n < 0 || n > 200 {
+				return hx.Result{Out: "bad-op"}
+			}
+			cand, err := s.k.NextBlock(nil, 1) // other consensus data => other hash, same parent, same height
+			must(err)
+			must(ledgerkit.SignWith(cand, book))
+			must(s.k.Store.AddHeader(cand.Header))
+			outs = append(outs, s.report("candidate-header-ahead", &res))
+			s.commit(newTxs(n))
+			outs = append(outs, s.report("after-commit-over-candidate", &res))
+			syncs++
+			forks++
 		case strings.HasPrefix(op, "b"):
 			n, err := strconv.Atoi(op[1:])
 			if err != nil || n < 0 || n > 200 {
@@ -294,8 +314,11 @@ func exec(line string) hx.Result {
 	if restarts > 0 && res.Kind == "plain" {
 		res.Kind = "restart"
 	}
-	if syncs > 0 {
+	if syncs > forks {
 		res.Kind += "+hdrsync"
+	}
+	if forks > 0 {
+		res.Kind += "+candidate"
 	}
 	if fi, _, _ := s.k.Store.VerifHeaderIndexWindow(); fi > 0 {
 		res.Kind += "+evicted"
@@ -314,8 +337,10 @@ func gen(r *hx.Rand, tier string, i int) string {
 			ops = append(ops, "r")
 		case x < 24:
 			ops = append(ops, "d")
-		case x < 29:
+		case x < 28:
 			ops = append(ops, fmt.Sprintf("s%d", r.Intn(3)))
+		case x < 33:
+			ops = append(ops, fmt.Sprintf("f%d", r.Intn(3)))
 		case x < 34:
 			ops = append(ops, fmt.Sprintf("x%d", 1+r.Intn(12)))
 		case x < 40:
@@ -338,7 +363,7 @@ func main() {
 	}()
 	hx.Main(hx.Prop{
 		ID: "C40",
-		Rule: "chains of real solo-ledger blocks (0-40 native transfers each, runs of empty blocks, a block repeating an already committed tx, header sync of the next header before its block), " +
+		Rule: "chains of real solo-ledger blocks (0-40 native transfers each, runs of empty blocks, a block repeating an already committed tx, header sync of the next header before its block, a candidate header followed by the commit of a different block at that height), " +
 			"restarts (Close + reopen of the LevelDB directories) in the middle; after every restart and at the end EVERY height is queried by all five routes " +
 			"and compared byte-wise with what was committed; corpus chains cross HEADER_INDEX_MAX_SIZE so that evicted heights are queried. the boundary height cur-MAX is reported separately (bd=). kinds: plain/restart/repeat(+hdrsync)(+evicted)",
 		Gen:  gen,
@@ -346,6 +371,8 @@ func main() {
 		Corpus: []string{"Q b1", "Q r", "Q b0;r;b0", "Q b3;b0;b2;r;b1;r;r;b4", "Q b2;d;r;d;b1", "Q x2001;b2;r;b1;x3;r", "Q x1998;r;b1;b1;b1;r;b2",
 			// boundary height cur-MAX on chains of MAX, MAX+1, MAX+5 blocks: after a restart, after a header sync, and both
 			"Q x1999;r", "Q x2000;r", "Q x2001;r;b1", "Q x2005;r;s1;r", "Q x2000;s1", "Q x2001;s0;r", "Q x2005;s2;b1;s0", "Q b1;s2;r;s0",
+			// candidate header X accepted by AddHeader, then a different block Y committed at that height (same parent)
+			"Q f1", "Q b1;f0;b1", "Q f2;r;f0;s1;f1", "Q b2;s1;f1;r;b1;f0;f0;r", "Q x2001;f1;r;f0",
 			"Q b40;b1;r;b40"},
 		N: map[string]int{"quick": 40, "thorough": 600},
 	})
